@@ -280,18 +280,18 @@ def django_server(store, scopes_supported=None):
     return srv
 
 
-def fw_call(srv, req, what, **kw):
+def fw_call(srv, req, what, *pre, **kw):
     """run `what` (a server method name) on the request `req` (a Req) through the framework the server belongs to; returns a Resp or the method's value"""
     from urllib.parse import urlparse as _up
     fw = getattr(srv, "framework", None)
     if fw is None:
-        return getattr(srv, what)(req, **kw)
+        return getattr(srv, what)(*pre, req, **kw)
     u = _up(req.uri)
     path = u.path + ("?" + u.query if u.query else "")
     if fw == "flask":
         with srv.app.test_request_context(path, method=req.method, data=dict(req.form) if req.method != "GET" else None, headers=dict(req.headers),
                                           base_url=f"{u.scheme}://{u.netloc}"):
-            r = getattr(srv, what)(None, **kw)
+            r = getattr(srv, what)(*pre, None, **kw)
             if hasattr(r, "status_code"):
                 ct = r.headers.get("Content-Type", "")
                 text = r.get_data(as_text=True)
@@ -301,7 +301,7 @@ def fw_call(srv, req, what, **kw):
     rf = RequestFactory()
     extra = {"HTTP_" + k.upper().replace("-", "_"): v for k, v in dict(req.headers).items()}
     dreq = (rf.get if req.method == "GET" else rf.post)(path, **({} if req.method == "GET" else {"data": dict(req.form)}), secure=u.scheme == "https", HTTP_HOST=u.netloc, **extra)
-    r = getattr(srv, what)(dreq, **kw)
+    r = getattr(srv, what)(*pre, dreq, **kw)
     if hasattr(r, "status_code"):
         text = r.content.decode()
         return Resp(r.status_code, json.loads(text) if text[:1] == "{" else text, list(r.items()))
